@@ -51,7 +51,7 @@ PROP = dict(
                 "pdf. The driver evaluates QuotaBound, QuotaUpper, MirrorBound, equal-share, WindowExists, WindowCovers, "
                 "Normalised, weight-proportional and quantile-inverse on the implementation's own output before comparing with "
                 "the model. Open findings F21 (power-law / exponential-power / non-integer gamma quantiles), F23 (two-sided law "
-                "with percentage < 1/2: no window) and F25 (density unbounded at the centre) are reported as KNOWN in their regions.",
+                "with percentage < 1/2: no window) F25 (density unbounded at the centre) and F33 (every raw double weight of the window is 0) are reported as KNOWN in their regions.",
 )
 
 META = dict(engine="h_det", design_ref="DESIGN.md section 3, C14",
@@ -67,7 +67,7 @@ META = dict(engine="h_det", design_ref="DESIGN.md section 3, C14",
              "off the diagonal scale = shape with ns != ew, and the property predicates are evaluated on the implementation's own "
              "matrix and sequence. Open findings: F21 (power-law quantile: counter-example theorem; exponential power and "
              "non-integer gamma: numeric), F23 (two-sided law, percentage < 1/2: negative quantile, no window / bad_array_new_length), "
-             "F25 (density unbounded at the centre: NaN weights).",
+             "F25 (density unbounded at the centre: NaN weights), F33 (every density of the window underflows to 0 in doubles: NaN window, all dispersers stay in the source cell).",
         note="Trusted: Lean kernel + propext/Classical.choice/Quot.sound, Mathlib; hand-written model of deterministic_kernel.hpp and "
              "the ten *_kernel.hpp laws; Float twin vs C double within 1e-9; reference erf / incomplete gamma for the numeric checks; "
              "correspondence harness and driver.")
